@@ -61,3 +61,23 @@ def alias_value_with_empty_quoted_argument():
 def alias_value_ending_in_backslash():
     """D49: alias value `log -1\\` — git rejects it (cmdline ends with \\); parse_alias_tokens keeps the backslash (pinned by a unit test)."""
     return _alias_tokens("log -1\\", "trailing-backslash")
+
+
+def alias_shadowing_a_builtin_is_ignored():
+    """D80 (fixed): alias.commit='status -s' - git never expands an alias named like one of its own commands, so `git commit -q -a -m x`
+    commits; the proxy expanded the alias and handed git `status -s -q -a -m x` (exit 129, nothing committed)."""
+    t = Twin("WC18b", 0, 0, hooks_kind="none")
+    try:
+        for w in (t.A, t.B):
+            w.git("config", "alias.commit", "status -s", plain=True, tick=False)
+            w.git("config", "alias.log", "status -s", plain=True, tick=False)
+        t.write_both("a.txt", "x\n")
+        t.run("add", "-A"); t.run("commit", "-q", "-m", "init")
+        t.write_both("a.txt", "x\ny\n")
+        t.diffs = []; t.argv_problems = []
+        t.run("commit", "-q", "-a", "-m", "second")
+        t.run("log", "--oneline")
+        kinds = sorted({"C06/" + d["diffs"][0]["what"] for d in t.diffs} | {"C18/proxied-argv-differs" for _ in t.argv_problems})
+        return kinds, dict(diffs=t.diffs[:2], argv=t.argv_problems[:2])
+    finally:
+        t.destroy()
